@@ -498,6 +498,10 @@ class Generator(AbstractODSGenerator):
         transaction_sheet_name: str = self.get_in_out_sheet_name(asset)
         output_sheet_name: str = self.get_tax_sheet_name(asset)
 
+        # Transactions are hashed by row only and rows are unique only within one asset's sheet: start each asset with an empty map, so
+        # that a transaction hidden by the date filters does not inherit the row recorded for another asset's transaction.
+        self.__in_out_sheet_transaction_2_row.clear()
+
         transaction_sheet: Any = ezodf.Table(transaction_sheet_name)
         output_sheet: Any = ezodf.Table(output_sheet_name)
         summary_sheet: Any = output_file.sheets["Summary"]
